@@ -331,6 +331,7 @@ func c12Language(c *hx.Ctx, r *hx.RNG) {
 		c.Count("reference_panicked", 1)
 		return
 	}
+	c12ScanDifferential(c, s)
 	if isInfLiteral(s) {
 		if !accepted {
 			c.Violate("language-differs", what+": infinity literal rejected", "")
@@ -360,10 +361,23 @@ func isInfLiteral(s string) bool {
 
 // exponentMagnitude finds the exponent digits after the last e/E/p/P and returns their magnitude (huge = does not fit comfortably).
 func exponentMagnitude(s string) (mag int64, huge bool) {
-	i := strings.LastIndexAny(s, "eEpP")
-	if i < 0 {
-		return 0, false
+	// the largest digit run after ANY exponent marker: a scanner that stops at the first complete number must not be
+	// handed an enormous exponent that merely is not the last one in the string
+	for i := 0; i < len(s); i++ {
+		if strings.IndexByte("eEpP", s[i]) >= 0 {
+			m, h := exponentAt(s, i)
+			if h {
+				return 0, true
+			}
+			if m > mag {
+				mag = m
+			}
+		}
 	}
+	return mag, false
+}
+
+func exponentAt(s string, i int) (mag int64, huge bool) {
 	t := strings.TrimLeft(s[i+1:], "+-")
 	n := int64(0)
 	digits := 0
@@ -495,4 +509,43 @@ func c12Range(c *hx.Ctx, r *hx.RNG) {
 		return
 	}
 	valueVerdict(c, what, o, got, p, mode, "")
+}
+
+// c12ScanDifferential: fmt's scanner hands runes to Scan; *big.Float implements the same fmt.Scanner contract with the
+// same grammar, so both must accept or reject the same inputs and, when they accept, must have read the same number.
+func c12ScanDifferential(c *hx.Ctx, s string) {
+	if mag, huge := exponentMagnitude(s); huge || mag > 300 || len(s) > 200 {
+		return
+	}
+	z := new(decimal.Decimal).SetPrec(80)
+	bf := new(big.Float).SetPrec(600)
+	var e1, e2 error
+	if pi := hx.Try(func() { _, e1 = fmt.Sscan(s, z) }); pi != nil {
+		c.Violate("panic", fmt.Sprintf("Sscan(%q): %s panic %q", s, pi.Class, pi.Text), "")
+		return
+	}
+	if pi := hx.Try(func() { _, e2 = fmt.Sscan(s, bf) }); pi != nil {
+		return
+	}
+	c.Count("scan_compared_with_math_big", 1)
+	if (e1 == nil) != (e2 == nil) {
+		c.Violate("scan-language-differs", fmt.Sprintf("Sscan(%q): accepted=%v, *big.Float accepted=%v (%v / %v)", s, e1 == nil, e2 == nil, e1, e2), "")
+		return
+	}
+	if e1 != nil || bf.IsInf() || z.IsInf() {
+		return
+	}
+	// same number read? compare as rationals with a relative tolerance far below either precision's resolution of a wrong digit
+	a, _ := z.Rat(nil)
+	b, _ := bf.Rat(nil)
+	if a == nil || b == nil {
+		return
+	}
+	d := new(big.Rat).Sub(a, b)
+	d.Abs(d)
+	tol := new(big.Rat).Abs(b)
+	tol.Mul(tol, new(big.Rat).SetFrac(big.NewInt(1), oracle.Pow10(60)))
+	if d.Cmp(tol) > 0 {
+		c.Violate("scan-value-differs", fmt.Sprintf("Sscan(%q) read %s, *big.Float read %s", s, z.Text('g', 40), bf.Text('g', 40)), "")
+	}
 }
